@@ -20,7 +20,7 @@ META = {
         'were lost); R3 every _export_metadata(rowid, T) passes a sanitized table name T and a rowid that is the rowid column '
         'of T in the query row it was unpacked from; R4 every query the exporter issues is scoped by the one-tuple of the '
         'exported lexicon rowid (C04-R2); R5 export() runs _precheck before building anything and writes through lmf.dump; '
-        'R9 a synset\'s members and an entry\'s senses are drawn per owner from the rank-ordered queries; R8 no comparison in the exporter tests a stored value against a constant (the exported content of an element does not depend on its part of speech, type, ...). R10 the exporter\'s output goes through the writer analysis of C02-R5 (values quoted by quoteattr / ElementTree). R11 every query reachable from export() is lexicon-scoped (C04-R1 on that call graph). R12 every frame written under version >= 1.1 has an identity a <Sense subcat> can refer to (a nullable id written as \'\' with no senses list is a frame whose links are lost). R13 belief analysis: a query-result position that one consumer in the exporter guards with `or` / a truth test may be absent, so no other consumer - directly or through a table handed to a helper - may order or join it unfiltered (TypeError on None). R15 the writer\'s metadata table is complete (C02-R4). R16 the rows the exporter is handed have the prescribed columns and joins (C01-R7).'),
+        'R9 a synset\'s members and an entry\'s senses are drawn per owner from the rank-ordered queries; R8 no comparison in the exporter tests a stored value against a constant (the exported content of an element does not depend on its part of speech, type, ...). R10 the exporter\'s output goes through the writer analysis of C02-R5 (values quoted by quoteattr / ElementTree). R11 every query reachable from export() is lexicon-scoped (C04-R1 on that call graph). R12 every frame written under version >= 1.1 has an identity a <Sense subcat> can refer to (a nullable id written as \'\' with no senses list is a frame whose links are lost). R13 belief analysis: a query-result position that one consumer in the exporter guards with `or` / a truth test may be absent, so no other consumer - directly or through a table handed to a helper - may order or join it unfiltered (TypeError on None). R15 the writer\'s metadata table is complete (C02-R4). R16 the rows the exporter is handed have the prescribed columns and joins (C01-R7). R17 the writer\'s attributes reach their element (C02-R11).'),
     'decides': ['exporter key coverage', 'version-guard consistency', 'metadata provenance', 'single-lexicon scoping', 'precheck first',
                 'exporter never switches on stored values', 'declared order of members / senses exported',
                 'frames written for 1.1+ are referable', 'possibly absent ids are filtered before sorted()/join'],
